@@ -9,6 +9,16 @@ let ifuel = nat 8
 
 exception Stop of string
 
+(* the element type's operator== on value codes, as in comp/seq/harness.cpp (dbl_of / Pod) *)
+let dbl_of (c : int64) : float =
+  if c = 0L then 0.0 else if c = 1L then (-0.0) else if c = 2L then nan
+  else if c = 3L then infinity else if c = 4L then neg_infinity else Int64.to_float c
+let veq_of elem : n -> n -> bool =
+  match elem with
+  | "dbl" -> (fun a b -> dbl_of (i64_of_n a) = dbl_of (i64_of_n b))        (* IEEE: nan <> nan, 0.0 = -0.0 *)
+  | "pod" -> (fun a b -> Int64.unsigned_div (i64_of_n a) 4L = Int64.unsigned_div (i64_of_n b) 4L)
+  | _ -> (fun a b -> Int64.equal (i64_of_n a) (i64_of_n b))
+
 let get = function
   | Ok a -> a
   | AssertStop -> raise (Stop "assert")
@@ -45,7 +55,7 @@ let reg_line k sz em cap (elems : n option list) =
   Printf.printf "r%d %d %d %s | %s | %s | %s %s\n" k sz (if em then 1 else 0) cap s s fr bk
 
 let elem_size cont elem =
-  let e = if elem = "int" then 8 else 24 in
+  let e = if elem = "int" || elem = "dbl" || elem = "pod" then 8 else 24 in
   if cont = "list" then e + 24 else e
 
 let body lines =
@@ -56,7 +66,8 @@ let body lines =
       | ["type"; c; e] -> c, e, 4
       | ["type"; c; e; n] -> c, e, ios n
       | _ -> "vec", "int", 4 in
-    let tracked = elem <> "int" in
+    let tracked = elem = "tv" || elem = "mo" in
+    let veq = veq_of elem in
     let esz_i = elem_size cont elem in
     let esz = n_of_i64 (Int64.of_int esz_i) in
     Printf.printf "hdr %s %s esz=%d\n" cont elem esz_i;
@@ -86,7 +97,7 @@ let body lines =
             | ["mctor"; r; s] -> VMoveCtor (nat (ios r), nat (ios s))
             | ["swap"; r; s] -> VSwap (nat (ios r), nat (ios s))
             | _ -> raise (Stop ("badop " ^ l)) in
-          let ((st1, out), evs) = get (vstep esz !st o) in
+          let ((st1, out), evs) = get (vstep esz veq !st o) in
           st := st1;
           print_string (show_out out ^ "\n"); dump (); print_evs tracked evs) ops;
         print_string "fin\n"; print_evs tracked (get (vfinish !st))
